@@ -1261,8 +1261,9 @@ func (s *Session) note(msg *ClientComMessage) {
 			return
 		}
 	case "call":
-		if types.GetTopicCat(msg.RcptTo) != types.TopicCatP2P {
-			// Calls are only available in P2P topics.
+		if !strings.HasPrefix(msg.RcptTo, "p2p") {
+			// Calls are only available in P2P topics. The name may be ill-formed here:
+			// types.GetTopicCat panics on such names.
 			return
 		}
 		fallthrough
